@@ -1,6 +1,6 @@
 (** C02 - parallel learning is independent of the schedule and always terminates. *)
 From Coq Require Import ZArith List Bool Ring Permutation.
-From PV Require Import Bytes BinFmt Store RWSpec RWExec RWProofs Sched SchedProofs QueueProofs RWMain.
+From PV Require Import Bytes BinFmt Store RWSpec RWExec RWProofs Sched SchedProofs QueueProofs QueueTrace RWMain.
 Import ListNotations.
 
 (** [ndl.slice_list]: for every n >= 1 (also n > len) the parts concatenate to
@@ -50,6 +50,63 @@ Theorem C02_unlocked_queue_blocks_refuted :
   exists items n sched, some_blocked (qrun false sched (qinit items n)) = true.
 Proof. exact unlocked_queue_blocks_refuted. Qed.
 Print Assumptions C02_unlocked_queue_blocks_refuted.
+
+(** the worker threads run to completion (QueueTrace.wstep: lock, queue and the loop over the atomic
+    row updates of the item a thread holds).  For every number of threads and EVERY schedule: what has
+    been performed so far is, item by item, a prefix of the item's program order ... *)
+Theorem C02_workers_trace_prefixes : forall (A : Type) (seqs : list (list A)) items n sched i, NoDup items ->
+  exists k, proj i (wtrace (wrun seqs sched (winit items n))) = firstn k (nth i seqs []).
+Proof. exact @worker_trace_prefixes. Qed.
+Print Assumptions C02_workers_trace_prefixes.
+
+(** ... when all threads are done it is an interleaving of the items' sequences: the hypothesis of
+    C02_threading_schedule_independent is what the threads produce ... *)
+Theorem C02_workers_trace_interleaving : forall (A : Type) (seqs : list (list A)) n sched, (1 <= n)%nat ->
+  let s := wrun seqs sched (winit (seq 0 (length seqs)) n) in
+  all_done (qs s) = true -> interleaving seqs (wtrace s).
+Proof. exact @worker_trace_interleaving. Qed.
+Print Assumptions C02_workers_trace_interleaving.
+
+(** ... the queue component is a run of the queue machine above (never blocked, exactly once) ... *)
+Theorem C02_workers_queue_component : forall (A : Type) (seqs : list (list A)) sched (s : @wstate A),
+  exists sched', qs (wrun seqs sched s) = qrun true sched' (qs s).
+Proof. exact @wrun_queue. Qed.
+Print Assumptions C02_workers_queue_component.
+
+(** ... and at most 5*items + 3*threads + (number of row updates) steps change the state, while some
+    thread can make such a step as long as a thread is not done: every fair run terminates *)
+Theorem C02_workers_terminate : forall (A : Type) (seqs : list (list A)) items n sched, NoDup items ->
+  let s := wrun seqs sched (winit items n) in
+  (weffective seqs items sched (winit items n) <= 5 * length items + 3 * n + total seqs items)%nat /\
+  (all_done (qs s) = false -> exists t, (phi seqs items (wstep seqs s t) < phi seqs items s)%nat).
+Proof. exact @worker_terminates. Qed.
+Print Assumptions C02_workers_terminate.
+
+(** end to end: whatever the schedule of the threads' steps, once all are done the kernel memory
+    holds the sequential result for the outcomes of the call and is untouched elsewhere *)
+Theorem C02_threading_workers_end_to_end :
+  forall (R : Type) (rO rI : R) (radd rmul rsub : R -> R -> R) (ropp : R -> R),
+    ring_theory rO rI radd rmul rsub ropp (@eq R) ->
+  forall p n_cues all n es n_threads sched m o c,
+    (0 <= n_cues < two32)%Z -> NoDup all -> Forall oko32 all ->
+    cues_ok (okc_n n_cues) es -> (1 <= n)%nat -> (1 <= n_threads)%nat ->
+    let seqs := map (fun part => item_actions part es) (slice_list all n) in
+    let s := wrun seqs sched (winit (seq 0 (length seqs)) n_threads) in
+    all_done (qs s) = true ->
+    oko32 o -> okc_n n_cues c ->
+    kget R rO n_cues (run_trace R rO radd rmul rsub (kstore R) (kget R rO n_cues) (kset R n_cues) p (wtrace s) m) o c =
+    if mem_z o all then learn R rO rI radd rmul rsub p es (kget R rO n_cues m) o c
+    else kget R rO n_cues m o c.
+Proof. exact threading_workers_any_schedule. Qed.
+Print Assumptions C02_threading_workers_end_to_end.
+
+(** non-vacuity: two threads, three items, a round-robin schedule ends with all threads done and a
+    trace in which the items' actions alternate *)
+Example C02_workers_run_exists :
+  let seqs := map (fun part => item_actions part (repeat ([1%Z], [5%Z]) 6)) (slice_list [5%Z; 6%Z; 7%Z] 1) in
+  let s := wrun seqs (concat (repeat [0; 1]%nat 40)) (winit (seq 0 (length seqs)) 2) in
+  all_done (qs s) = true /\ map fst (wtrace s) = [0; 0; 0; 0; 1; 0; 1; 0; 1; 1; 1; 1; 2; 2; 2; 2; 2; 2]%nat.
+Proof. vm_compute. split; reflexivity. Qed.
 
 (** every interleaving of the work items' atomic row updates: threading ... *)
 Theorem C02_threading_schedule_independent :
